@@ -11,26 +11,24 @@
    permutation of the reference content (which never holds a key twice: c18_reference_distinct).
 
    Status.
-   * c18_refines_set: PROVED for every hash function, every pair of explicit bucket counts (any integers:
-     0, 1, non powers of two, ...) and every operation sequence, all element types being (key, mapped) pairs.
-   * c18_default_constructed_refuted / c18_default_size_plus_16 / c18_default_iteration_stops: the same statement
-     is FALSE of the faithful model when a container is default-constructed (placeholder head): size() = n + 16
-     and iteration (hence copy / reserve / rehash, which iterate) stops after the first chained table.  The
-     witnesses are replayed on the real classes by checks/c18.py (cases wit-size, wit-iter): finding F1.
-     GAP: the positive theorem does not cover default-constructed containers; it cannot for the current source.
-     After the repair (begin(): `return {node->next.load(acquire), iter}` / `node = node->next.load(acquire)`;
-     total_size: `auto sum = _head.table.size()`), Gen_hash_table.begin_chained_next / begin_loop_next /
-     total_size_init change, the three `_refuted`-style theorems below stop compiling (delete them) and the
-     invariant CInv of HSProofs.v has to admit `head c = dummy_table` (dummy_templace, dummy_tfind, dummy_titer
-     are already proved) to extend c18_refines_set to `init None _`.  The model itself needs no change. *)
+   * c18_refines_set: PROVED for every hash function, every pair of initial capacities - an explicit bucket
+     count (any integer: 0, 1, non powers of two, ...) or None = default-constructed (placeholder head that
+     always answers "full", first table chained behind it) - and every operation sequence, all element types
+     being (key, mapped) pairs.
+   * History: until fix commit bf7dad8 the default-constructed case was refuted (size() = n + 16; iteration, hence
+     copy / reserve / rehash, stopped after the first chained table: begin() returned {nullptr, iter} and
+     re-read _head.next, total_size started from the placeholder's bucket_count()).  The repaired expressions
+     are regenerated into Gen_hash_table (begin_chained_next, begin_loop_next, total_size_init); the lemmas
+     begin_next_eq / total_size_init_eq of HSProofs.v hold of them by computation, so reverting the repair
+     re-opens c18_refines_set, c18_total_size and c18_iteration (mutants/C18/revert_default_ctor_fix.diff). *)
 From Coq Require Import ZArith List Permutation.
 Require Import Verif.Gen.Gen_hash_table Verif.HS.HSModel Verif.HS.HSProofs.
 Import ListNotations.
 Local Open Scope Z_scope.
 
-(* the property, for containers constructed with a bucket count *)
-Theorem c18_refines_set : forall (hash : Z -> Z) (na nb : Z) (ops : list op),
-  refines hash (Some na) (Some nb) ops.
+(* the property: every hash, every initial capacity of A and B (None = default-constructed), every history *)
+Theorem c18_refines_set : forall (hash : Z -> Z) (a b : option Z) (ops : list op),
+  refines hash a b ops.
 Proof. exact hs_refines_set. Qed.
 Print Assumptions c18_refines_set.
 
@@ -80,23 +78,18 @@ Theorem c18_copy_keeps : forall hash c l, Ref hash c l -> Ref hash (ccopy hash c
 Proof. exact ccopy_spec. Qed.
 Print Assumptions c18_copy_keeps.
 
-(* ---- the default-constructed container: the full statement is false of the code as it is ---- *)
-Theorem c18_default_constructed_refuted : exists ops, ~ refines hid None None ops.
-Proof. exact hs_default_refuted. Qed.
-Print Assumptions c18_default_constructed_refuted.
-
-Theorem c18_default_size_plus_16 : ~ refines hid None None [Emplace 1 0; Size].
-Proof. exact hs_default_size_refuted. Qed.
-Print Assumptions c18_default_size_plus_16.
-
-Theorem c18_default_iteration_stops :
-  exists l, last (snd (run hid (init None None) (fill49 ++ [Iterate]))) OUnit = OIter (Some l) /\ length l = 32%nat.
-Proof. exact hs_default_iter_refuted. Qed.
-Print Assumptions c18_default_iteration_stops.
-
 (* non-vacuity: the invariant's interesting states are reached (two chained tables), WF tables exist *)
 Example c18_chain_of_three :
   length (rest (fst (fst (run hid (init (Some 16) (Some 16)) (map (fun k => Emplace k 0) (zrange 60)))))) = 2%nat.
 Proof. exact hs_example_chain. Qed.
 Example c18_wf_inhabited : WF hid (fresh 100).
 Proof. exact (proj1 (fresh_wf hid 100)). Qed.
+(* the default-constructed container: after 49 emplaces the placeholder head has two tables chained behind it,
+   size() = 49 and iteration visits 49 elements; the invariant covers that state *)
+Example c18_default_constructed_49 :
+  let s := fst (run hid (init None None) fill49) in
+  dummy (head (fst s)) = true /\ length (rest (fst s)) = 2%nat /\ csize (fst s) = 49 /\
+  exists l, citer (fst s) = Some l /\ length l = 49%nat.
+Proof. exact hs_example_default. Qed.
+Example c18_default_invariant : CInv hid (new_chain None).
+Proof. exact (proj1 (dummy_ref hid)). Qed.
